@@ -8,7 +8,7 @@ PID = "C04"
 MODULE = "Check.C04"
 VERDICT = "verdict_C04 [] []"
 CLASS_BITS = {16: "K_duplicate_usage"}
-NCASES = (60, 2000)
+NCASES = (160, 2000)
 shrinkable = True
 RULE = ("generators W and W-chains (gen/wsgen.py) incl. fixtures named test_*; for every definition D of every file: "
         "find_references_for_definition(D) next to find_fixture_definition on every usage the implementation recorded "
